@@ -396,6 +396,9 @@ func runCheck(prop, tier, repo string, verbose bool, only string, timeout int) i
 	// report
 	var reps []oblReport
 	nObl, nDis, nCan, nCanBad := 0, 0, 0, 0
+	nInfeasible := 0
+	canGroups := map[string]bool{}
+	var canOrder []string
 	var failed []*Obligation
 	var solverMs int64
 	bySolver := map[string]int{}
@@ -404,11 +407,19 @@ func runCheck(prop, tier, repo string, verbose bool, only string, timeout int) i
 		solverMs += o.Res.Ms
 		if o.Canary {
 			nCan++
+			grp := o.Func + "|" + o.Mode + "|" + canaryGroup(o.Name)
+			if strings.Contains(o.Name, "/loop#") {
+				grp = o.Name
+			}
+			if _, ok := canGroups[grp]; !ok {
+				canGroups[grp] = false
+				canOrder = append(canOrder, grp)
+			}
 			if o.Res.Status == "unsat" {
-				nCanBad++
-				r.Status = "VACUOUS"
-				fmt.Printf("VACUITY: %s — the assumptions at this point are contradictory\n", o.Name)
+				r.Status = "infeasible-path"
+				nInfeasible++
 			} else {
+				canGroups[grp] = true
 				r.Status = "canary-ok(" + o.Res.Status + ")"
 			}
 		} else {
@@ -426,6 +437,12 @@ func runCheck(prop, tier, repo string, verbose bool, only string, timeout int) i
 			if !o.Canary && o.Res.Status != "unsat" && o.Note != "" {
 				fmt.Printf("           note: %s\n", o.Note)
 			}
+		}
+	}
+	for _, g := range canOrder {
+		if !canGroups[g] {
+			nCanBad++
+			fmt.Printf("VACUITY: %s — no satisfiable path: the assumptions are contradictory\n", g)
 		}
 	}
 	wall := time.Since(t0).Seconds()
@@ -492,7 +509,7 @@ func runCheck(prop, tier, repo string, verbose bool, only string, timeout int) i
 			assumedUsed[k] = true
 		}
 	}
-	var assumptions []string
+	assumptions := []string{}
 	for n := range notes {
 		assumptions = append(assumptions, n)
 	}
@@ -519,6 +536,7 @@ func runCheck(prop, tier, repo string, verbose bool, only string, timeout int) i
 			"solver_ms_total":          solverMs,
 			"vacuity_canaries":         nCan,
 			"vacuous":                  nCanBad,
+			"infeasible_paths":         nInfeasible,
 			"samples":                  samples,
 			"explanation":              "contract-based deductive verification: every obligation is generated from /repo's current source by govc and discharged by an SMT solver; see DESIGN.md",
 		},
@@ -595,4 +613,12 @@ func newExec(prog *Program, fi *FuncInfo, ct *Contract, mode string) *Exec {
 		ex.P = BigLit(fieldP)
 	}
 	return ex
+}
+
+// canaryGroup: name of the function run (incl. case suffix) a return canary belongs to
+func canaryGroup(name string) string {
+	if i := strings.Index(name, "/canary@"); i >= 0 {
+		return name[:i]
+	}
+	return name
 }
